@@ -713,7 +713,8 @@ mod verif_xc_ack_waiter {
   // for THIS wait before the answer (or the DataWriter is not Reliable: nothing to wait for);
   // if the token is sent in time the answer is Ok(true) without waiting for the timeout; otherwise
   // the synchronous form answers Ok(false) after the requested time: never earlier than
-  // max_wait - 5 ms (whatever the fate of the command) and not later than max_wait + slack, the
+  // max_wait - 5 ms (whatever the fate of the command) and not later than max_wait + slack (a
+  // call that has not answered after max_wait + 2 s is reported as hanging by a watchdog), the
   // asynchronous form stays pending and completes with
   // Ok(true) as soon as the token is there.
   // Bound: reliability in {Reliable, BestEffort, none} x fate of the command in {queue full with
@@ -933,9 +934,23 @@ mod verif_xc_ack_waiter {
           let h = responder(cc, fate, max_wait, Arc::clone(&stop));
           let ctx = format!("reliability={:?} fate={:?} max_wait={}ms", rel, fate, max_wait.as_millis());
 
-          let start = Instant::now();
-          let answer = dw.wait_for_acknowledgments(max_wait);
-          let returned = Instant::now();
+          // watchdog: the call runs on a helper thread; if it has not answered max_wait + 2 s after
+          // it was issued the test fails at once and leaves the hung thread behind (detached)
+          let (tx, rx) = std::sync::mpsc::channel();
+          let issued = Instant::now();
+          thread::spawn(move || {
+            let start = Instant::now();
+            let answer = dw.wait_for_acknowledgments(max_wait);
+            let returned = Instant::now();
+            let _ = tx.send((start, answer.map_err(|e| format!("{:?}", e)), returned));
+          });
+          let (start, answer, returned) = match rx.recv_timeout(max_wait + StdDuration::from_secs(2)) {
+            Ok(x) => x,
+            Err(_) => {
+              stop.store(true, Ordering::SeqCst);
+              panic!("XC-WITNESS label=wfa.sync.returns {}: no answer after {} ms (the call hangs)", ctx, issued.elapsed().as_millis());
+            }
+          };
           let took = returned - start;
           if !(rel == Rel::Reliable && fate == Fate::TokenAfterTimeout) {
             stop.store(true, Ordering::SeqCst); // (the late token is still to come in that scenario)
@@ -945,7 +960,7 @@ mod verif_xc_ack_waiter {
 
           let answer = match answer {
             Ok(b) => b,
-            Err(e) => panic!("XC-WITNESS label=wfa.sync.answer {}: answered Err({:?}) after {} ms, must be Ok(true) or Ok(false)", ctx, e, took.as_millis()),
+            Err(e) => panic!("XC-WITNESS label=wfa.sync.answer {}: answered Err({}) after {} ms, must be Ok(true) or Ok(false)", ctx, e, took.as_millis()),
           };
           if rel != Rel::Reliable {
             // not a reliable writer: nothing can be waited for, success at once
